@@ -1,10 +1,12 @@
 (* C14 - written frameworks and answers read back to the same objects.
-   Statements only; proofs are [exact] of lemmas of Proofs/WritersProofs.v.
+   Statements only; proofs are [exact] of lemmas of Proofs/WritersProofs.v (C14_utf8_roundtrip:
+   Proofs/IoBase.v).  [reachable] is the one of Properties/C12.v; [att_labels_are], [has_att_lab],
+   [label_ok] are defined in Proofs/WritersProofs.v.
    Writers: Model/Writers.v ([write_apx], [write_w], [write_bracket], [write_status], [write_no]);
    [parse_w] / [parse_bracket] are the reference parsers of the two answer formats (crustabri has
    no reader for answers): exactly one LF-terminated line, `w` followed by blank-separated decimal
    labels, resp. one bracketed comma-separated list. *)
-From Crusta Require Import Spec.IoSpec Proofs.IoBase Proofs.WritersProofs.
+From Crusta Require Import Spec.IoSpec Proofs.IoBase Proofs.WritersProofs Properties.C12.
 
 (* an ICCMA'23 extension line reads back to exactly the labels (usize, any value) it contained,
    in order, the empty extension included *)
@@ -26,15 +28,11 @@ Theorem C14_status_exact : forall b,
   write_status b = (if b then [89; 69; 83; 10] else [78; 79; 10])%N /\ write_no = [78; 79; 10]%N.
 Proof. exact WritersProofs.status_exact. Qed.
 
-(* PARTIAL (the reading half of the framework round trip): the byte string consisting of one
-   `arg(l).` line per label and one `att(a,b).` line per attack - which is what [write_apx] emits,
-   see Model/Writers.v - is read back by the Aspartix reader as the framework built from exactly
-   these labels (in order) and these attacks, for all identifier labels and all attacks between
-   them.  Missing for the full statement over every reachable store: (1) [write_apx f] is this byte
-   string for the live labels and the live attacks (as label pairs) of a store [f] reachable by
-   any history (needs the store invariant: end points of live attacks are live), (2) the attack
-   set of [apx_result labels pairs] is exactly [pairs].  Both are covered on every run by the
-   correspondence check and by the Rust-side round trip oracle of checks/C14.py. *)
+(* The reading half of the framework round trip on its own (kept under its former name; it is a
+   step of C14_apx_read_of_written below, which is the full statement): the byte string consisting
+   of one `arg(l).` line per label and one `att(a,b).` line per attack is read back by the Aspartix
+   reader as the framework built from exactly these labels (in order) and these attacks, for all
+   identifier labels and all attacks between them. *)
 Theorem C14_apx_read_of_written_partial : forall (labels : list str) (pairs : list (str * str)),
   Forall (fun l => is_ident l = true) labels ->
   (forall p, In p pairs -> In (fst p) labels /\ In (snd p) labels) ->
@@ -42,6 +40,51 @@ Theorem C14_apx_read_of_written_partial : forall (labels : list str) (pairs : li
             flat_map (fun p => Writers.att_line str utf8_encode (fst p) (snd p)) pairs) =
   RdOk (apx_result labels pairs).
 Proof. exact WritersProofs.read_written. Qed.
+
+(* The framework round trip, full statement.  For EVERY store [f] reachable by any update history
+   (C12's [reachable]: any initial label list, any sequence of new_argument / remove_argument /
+   new_attack / remove_attack, so with tombstoned ids and attacks) whose live labels are Aspartix
+   identifiers (they are pairwise distinct by C12_spec_wellformed):
+   - AspartixWriter::write_framework does not panic ([write_apx] = Some bytes),
+   - AspartixReader::read accepts these bytes and returns a framework [f'],
+   - [f'] has the same labels in the same order as the live arguments of [f] (ids renumbered
+     0,1,2,... : [numbered]),
+   - [f'] has the same attacks as [f], as label pairs, IN THE SAME ORDER: one list [pairs] of
+     label pairs describes both [iter_attacks f] and [iter_attacks f'] position by position
+     ([att_labels_are g pairs]: the k-th attack (a, b) of g joins the arguments that [iter_args g]
+     labels [fst (nth k pairs)], [snd (nth k pairs)]),
+   - hence the same SET of attacks as label pairs ([has_att_lab]) and the same counts. *)
+Theorem C14_apx_read_of_written : forall f : fw str,
+  reachable str str_eqb f ->
+  Forall (fun p => is_ident (snd p) = true) (iter_args str f) ->
+  exists bytes f' pairs,
+    write_apx str utf8_encode f = Some bytes /\
+    read_apx bytes = RdOk f' /\
+    iter_args str f' = numbered 0 (map snd (iter_args str f)) /\
+    att_labels_are f pairs /\ att_labels_are f' pairs /\
+    (forall la lb, has_att_lab f' la lb <-> has_att_lab f la lb) /\
+    n_arguments str f' = n_arguments str f /\ n_attacks str f' = n_attacks str f.
+Proof. exact WritersProofs.read_of_written_full. Qed.
+
+(* the hypotheses are satisfiable by a store with removed arguments and attacks (ids 0, 2, 3 live) *)
+Example C14_example_store :
+  let a := [97%N] in let b := [98%N] in let c := [99%N] in let d := [100%N] in
+  let f := run_ops str str_eqb (fw_new_with_labels str str_eqb [a; b; c])
+             [OpNewAtt a b; OpNewAtt b c; OpNewAtt c a; OpNewArg d; OpNewAtt d d; OpNewAtt d a;
+              OpRemArg b; OpNewAtt c d; OpRemAtt d d] in
+  reachable str str_eqb f /\
+  Forall (fun p => is_ident (snd p) = true) (iter_args str f) /\
+  iter_args str f = [(0, a); (2, c); (3, d)] /\ iter_attacks str f = [(2, 0); (3, 0); (2, 3)] /\
+  option_map read_apx (write_apx str utf8_encode f) =
+    Some (RdOk (apx_result [a; c; d] [(c, a); (d, a); (c, d)])).
+Proof.
+  cbv zeta. split; [eexists; eexists; reflexivity|].
+  match goal with |- Forall _ ?args /\ _ =>
+    assert (E : args = [(0, [97%N]); (2, [99%N]); (3, [100%N])]) by (vm_compute; reflexivity)
+  end.
+  split; [rewrite E; repeat constructor|].
+  split; [exact E|]. split; vm_compute; reflexivity.
+Qed.
 
 (* UTF-8: decoding what was encoded gives the string back (every Rust String) *)
 Theorem C14_utf8_roundtrip : forall s, Forall scalar s -> utf8_decode (utf8_encode s) = Some s.
@@ -52,4 +95,5 @@ Print Assumptions C14_bracket_roundtrip.
 Print Assumptions C14_identifiers_are_label_ok.
 Print Assumptions C14_status_exact.
 Print Assumptions C14_apx_read_of_written_partial.
+Print Assumptions C14_apx_read_of_written.
 Print Assumptions C14_utf8_roundtrip.
